@@ -2,7 +2,7 @@
    index-assignment growth loop is dilation, qdone is list equality. *)
 From Coq Require Import ZArith QArith Qabs List Bool Lia Lqa.
 Import ListNotations.
-From PV Require Import C17.Model C17.ProofsDilate.
+From PV Require Import Generated.Reject C17.Model C17.ProofsDilate.
 Open Scope Q_scope.
 
 (* ---------------------------------------------------------------- boolean order tests on Q *)
@@ -63,6 +63,30 @@ Proof.
 Qed.
 
 (* ---------------------------------------------------------------- badness = 0  <->  not beyond the limits *)
+
+(* sigma + (sigma == 0) *)
+Definition sig1 (s : Q) : Q := s + b2q (Qeq_bool s 0).
+
+Lemma Qltb_compat : forall a a' b b', a == a' -> b == b' -> Qltb a b = Qltb a' b'.
+Proof.
+  intros a a' b b' Ha Hb. apply eq_true_iff_eq. rewrite !Qltb_iff, Ha, Hb. reflexivity.
+Qed.
+Lemma Qle_bool_compat : forall a a' b b', a == a' -> b == b' -> Qle_bool a b = Qle_bool a' b'.
+Proof.
+  intros a a' b b' Ha Hb. apply eq_true_iff_eq. rewrite !Qle_bool_iff, Ha, Hb. reflexivity.
+Qed.
+
+(* sqrtmul_lt respects == (the generated terms carry `- - d`, `- 0`) *)
+Lemma sqrtmul_lt_compat : forall d d' iv c c', d == d' -> c == c' -> sqrtmul_lt d iv c = sqrtmul_lt d' iv c'.
+Proof.
+  intros d d' iv c c' Hd Hc. unfold sqrtmul_lt.
+  rewrite (Qltb_compat 0 0 c c') by (assumption || reflexivity).
+  rewrite (Qle_bool_compat d d' 0 0) by (assumption || reflexivity).
+  rewrite (Qltb_compat (d * d * iv) (d' * d' * iv) (c * c) (c' * c')) by (rewrite ?Hd, ?Hc; reflexivity).
+  rewrite (Qltb_compat d d' 0 0) by (assumption || reflexivity).
+  rewrite (Qltb_compat (c * c) (c' * c') (d * d * iv) (d' * d' * iv)) by (rewrite ?Hd, ?Hc; reflexivity).
+  reflexivity.
+Qed.
 
 Lemma sig1_pos : forall s, 0 <= s -> 0 < sig1 s.
 Proof.
@@ -125,8 +149,8 @@ Definition term_l (o : ropts) (p : point) : Q :=
   | None => 0
   | Some l =>
     match p_scale p with
-    | Sig s => b2q (Qltb 0 ((- d) / sig1 s)) * b2q (Qltb d ((- l) * s))
-    | Ivar iv => b2q (sqrtmul_lt d iv 0) * b2q (sqrtmul_lt d iv (- l))
+    | Sig s => rej_lower_sig_term d l s (rej_lower_sig_qbad d l s)
+    | Ivar iv => rej_lower_iv_term d l iv (rej_lower_iv_qbad d l iv)
     end
   end.
 Definition term_u (o : ropts) (p : point) : Q :=
@@ -135,13 +159,13 @@ Definition term_u (o : ropts) (p : point) : Q :=
   | None => 0
   | Some u =>
     match p_scale p with
-    | Sig s => b2q (Qltb 0 (d / sig1 s)) * b2q (Qltb (u * s) d)
-    | Ivar iv => b2q (sqrtmul_lt (- d) iv 0) * b2q (sqrtmul_lt (- d) iv (- u))
+    | Sig s => rej_upper_sig_term d u s (rej_upper_sig_qbad d u s)
+    | Ivar iv => rej_upper_iv_term d u iv (rej_upper_iv_qbad d u iv)
     end
   end.
 Definition term_m (o : ropts) (p : point) : Q :=
   let d := p_data p - p_model p in
-  match o_maxdev o with None => 0 | Some x => Qabs d / x * b2q (Qltb x (Qabs d)) end.
+  match o_maxdev o with None => 0 | Some x => rej_maxdev_term d x (rej_maxdev_qbad d x) end.
 
 Lemma badness_terms : forall o p, badness o p = term_l o p + term_u o p + term_m o p.
 Proof. reflexivity. Qed.
@@ -165,8 +189,12 @@ Proof.
   intros o p Ho Hs. destruct (opts_ok_inv o Ho) as (Hl & _ & _).
   unfold term_l, cond_l. destruct (o_lower o) as [l|]; [|reflexivity]. specialize (Hl l eq_refl).
   destruct (p_scale p) as [s|iv]; cbn in Hs.
-  - apply Qle_bool_iff in Hs. rewrite b2q_and, sig_lower_and by assumption. reflexivity.
-  - rewrite b2q_and, ivar_and by assumption. reflexivity.
+  - apply Qle_bool_iff in Hs. unfold rej_lower_sig_term, rej_lower_sig_qbad.
+    change (s + b2q (Qeq_bool s 0)) with (sig1 s).
+    rewrite b2q_and, sig_lower_and by assumption. reflexivity.
+  - unfold rej_lower_iv_term, rej_lower_iv_qbad.
+    rewrite (sqrtmul_lt_compat (- - (p_data p - p_model p)) (p_data p - p_model p) iv (- 0) 0) by ring.
+    rewrite b2q_and, ivar_and by assumption. reflexivity.
 Qed.
 
 Lemma term_u_ok : forall o p, opts_ok o = true -> scale_ok (p_scale p) = true ->
@@ -175,15 +203,19 @@ Proof.
   intros o p Ho Hs. destruct (opts_ok_inv o Ho) as (_ & Hu & _).
   unfold term_u, cond_u. destruct (o_upper o) as [u|]; [|reflexivity]. specialize (Hu u eq_refl).
   destruct (p_scale p) as [s|iv]; cbn in Hs.
-  - apply Qle_bool_iff in Hs. rewrite b2q_and, sig_upper_and by assumption. reflexivity.
-  - rewrite b2q_and, ivar_and by assumption. reflexivity.
+  - apply Qle_bool_iff in Hs. unfold rej_upper_sig_term, rej_upper_sig_qbad.
+    change (s + b2q (Qeq_bool s 0)) with (sig1 s).
+    rewrite b2q_and, sig_upper_and by assumption. reflexivity.
+  - unfold rej_upper_iv_term, rej_upper_iv_qbad.
+    rewrite (sqrtmul_lt_compat (- (p_data p - p_model p)) (- (p_data p - p_model p)) iv (- 0) 0) by ring.
+    rewrite b2q_and, ivar_and by assumption. reflexivity.
 Qed.
 
 Lemma term_m_ok : forall o p, opts_ok o = true ->
   0 <= term_m o p /\ (term_m o p == 0 <-> cond_m o p = false).
 Proof.
   intros o p Ho. destruct (opts_ok_inv o Ho) as (_ & _ & Hx).
-  unfold term_m, cond_m. destruct (o_maxdev o) as [x|]; [|split; [lra | split; [reflexivity | intros; reflexivity]]].
+  unfold term_m, cond_m, rej_maxdev_term, rej_maxdev_qbad. destruct (o_maxdev o) as [x|]; [|split; [lra | split; [reflexivity | intros; reflexivity]]].
   specialize (Hx x eq_refl). destruct (Qltb x (Qabs (p_data p - p_model p))) eqn:B; cbn [b2q].
   - apply Qltb_iff in B. assert (P : 0 < Qabs (p_data p - p_model p) / x) by (apply div_pos; lra).
     split; [lra|]. split; [intros; lra | discriminate].
@@ -201,10 +233,10 @@ Proof.
 Qed.
 
 Lemma badness_masked_zero : forall o p, opts_ok o = true -> scale_ok (p_scale p) = true ->
-  Qeq_bool (badness_masked o p) 0 = negb (bad_spec o p).
+  rej_newmask (badness_masked o p) = negb (bad_spec o p).
 Proof.
-  intros o p Ho Hs. apply eq_true_iff_eq. rewrite Qeq_bool_iff, negb_true_iff.
-  unfold badness_masked, bad_spec, eligible.
+  intros o p Ho Hs. unfold rej_newmask. apply eq_true_iff_eq. rewrite Qeq_bool_iff, negb_true_iff.
+  unfold badness_masked, rej_products, bad_spec, eligible. cbv zeta.
   pose proof (badness_zero o p Ho Hs) as BZ.
   destruct (p_in p), (o_sticky o), (p_out p); cbn [b2q negb orb andb];
     try (rewrite <- BZ; split; intros H; [lra | rewrite H; ring]);
@@ -278,7 +310,7 @@ Qed.
 Theorem reject_model_eq_spec : forall o pts, pre o pts -> reject_model o pts = reject_spec o pts.
 Proof.
   intros o pts [Ho Hs]. unfold reject_model.
-  replace (map (fun p => Qeq_bool (badness_masked o p) 0) pts) with (map (fun p => negb (bad_spec o p)) pts)
+  replace (map (fun p => rej_newmask (badness_masked o p)) pts) with (map (fun p => negb (bad_spec o p)) pts)
     by (apply map_ext_in; intros p Hp; symmetry; apply badness_masked_zero; [exact Ho | apply Hs, Hp]).
   set (final := map _ (combine _ pts)).
   assert (E : final = fst (reject_spec o pts)).
@@ -286,9 +318,9 @@ Proof.
     rewrite nth_error_map, nth_error_combine_opt.
     destruct (nth_error pts i) as [p|] eqn:Ep.
     - rewrite grown_nth by (apply nth_error_Some; congruence). cbn [option_map fst snd]. f_equal.
-      unfold eligible. destruct (dil_at _ _ i), (p_in p), (o_sticky o), (p_out p); reflexivity.
+      unfold eligible, rej_final. destruct (dil_at _ _ i), (p_in p), (o_sticky o), (p_out p); reflexivity.
     - destruct (nth_error (grow_model _ _) i); reflexivity. }
-  rewrite E. reflexivity.
+  rewrite E. unfold rej_qdone. reflexivity.
 Qed.
 
 (* ---------------------------------------------------------------- the property's statement *)
@@ -410,7 +442,7 @@ Proof. intros. unfold reject_spec. cbn [fst snd]. apply list_beq_iff. Qed.
 
 Theorem qdone_model : forall o pts,
   snd (reject_model o pts) = true <-> fst (reject_model o pts) = map p_out pts.
-Proof. intros. unfold reject_model. cbn [fst snd]. apply list_beq_iff. Qed.
+Proof. intros. unfold reject_model, rej_qdone. cbn [fst snd]. apply list_beq_iff. Qed.
 
 (* the precondition is decidable by computation *)
 Lemma pre_of_forallb : forall o pts,
